@@ -161,7 +161,11 @@ func (fc *FnCtx) anchorEnv() *Env {
 		}
 		val := fc.operand(v)
 		if isAddr {
-			return fc.loadPtr(st, val), true
+			lv := fc.loadPtr(st, val)
+			if fc.cur != nil {
+				fc.cur.assume(fc.wfFacts(lv))
+			}
+			return lv, true
 		}
 		return val, true
 	}
